@@ -189,7 +189,7 @@ def gainsTags (p : GainsParsed) : List String :=
   let ties := (p.cells.filter (fun (f, _, _) => isTie f)).length
   let negs := (p.cells.filter (fun (f, _, _) => f < 0)).length
   let lossy := (p.cells.filter (fun (f, d, _) => f ≠ d)).length
-  let nt := if gainRows ≥ 2 && p.cells.length ≥ 4 then "C06" else ""
+  let nt := (if gainRows ≥ 2 && p.cells.length ≥ 4 then "C06" else "") ++ (if p.nsecs ≥ 2 then ",C08" else "")
   let b (n : Nat) (k : Nat) : String := if n ≥ k then s!"{k}+" else toString n
   [s!"nt={nt}", s!"nsec={p.nsecs}", s!"gains={b gainRows 6}", s!"years={b years.length 5}", s!"errsecs={nerr}",
    s!"boundary={b p.boundary 2}", s!"ties={b ties 3}", s!"neg={b negs 3}", s!"rounded={b lossy 10}", s!"out={p.result}"]
@@ -215,7 +215,9 @@ def runGains (c : Case) : Res :=
       let nearAgg := (sameCents (aggTable true agg) (aggTable false agg) (p.agg.map (fun f => (f.year, f.dflt)))).2
       let tags := if nearSec || nearAgg then "near=1" :: tags else tags
       match gainsOracle p, gainsDiff p with
-      | some e, d => { verdict := "ORACLE", tags := "of=C06" :: tags,
+      | some e, d => { verdict := "ORACLE",
+                       -- the aggregate is the sum of the completed securities' own figures: also C08
+                       tags := (if e.startsWith "aggregate" then "of=C06,C08" else "of=C06") :: tags,
                        msg := e ++ (match d with | some x => " || model: " ++ x | none => "") }
       | none, some x => { verdict := "DIFF", tags := "dk=gains" :: tags, msg := x }
       | none, none => { verdict := "ok", tags := tags }
